@@ -128,10 +128,11 @@ ALL_MENU = (
     "ins:raise", "ins:probe", "ins:res", "ins:mkitem", "ins:mkchild", "ins:sync", "ins:iv", "ins:yempty", "ins:ynone",
     "wrap:try", "wrap:A", "wrap:N", "wrap:S0", "wrap:S1", "wrap:P0", "wrap:Xp", "wrap:Xr",
     "flush:raise", "flush:raiseB", "flush:new", "flush:setraise", "flush:nested",
-    "leaf:dd", "ins:ddirty",
+    "leaf:dd", "ins:ddirty", "item:errf", "ins:caught", "leaf:cw",
 )
 DD_ALTS = (("f", 1, "pos"), ("f", 1, "kw"), ("f", 1, "def"), ("f", 2, "pos"), ("g", 1, "pos"),
-           ("mx", 1, "pos"), ("mx", 1, "mix"), ("my", 1, "pos"), ("s", 1, "pos"), ("sx", 1, "def"), ("h", 1, "pos"))
+           ("mx", 1, "pos"), ("mx", 1, "mix"), ("my", 1, "pos"), ("s", 1, "pos"), ("sx", 1, "def"), ("h", 1, "pos"),
+           ("p", 1, "pos"), ("q", 1, "pos"))  # p/q: two distinct functions with the same module and __name__
 
 
 def variants(prog, menu):
@@ -257,6 +258,8 @@ def _block_variants(stmts, ctx, allow_shared, made_before):
         ins.append(("y", ("D", ())))
     if "ins:ynone" in menu:
         ins.append(("y", ("n",)))
+    if "ins:caught" in menu:
+        ins.append(("try", (("y", ("ef",)),), ()))
     if "ins:ddirty" in menu:
         ins.append(("ddirty", "f", 1))
         ins.append(("ddirty", "mx", 1))
@@ -339,11 +342,18 @@ def _struct_variants(s, ctx, allow_shared, made, top):
                 yield ("i", s[1], "err"), None
             if "item:unset" in menu:
                 yield ("i", s[1], "unset"), None
+            if "item:errf" in menu:
+                yield ("i", s[1], "errf"), None
         if s[1] == "b" and "item:c" in menu:
             yield ("i", "c", s[2]), None
     elif op == "c":
         for nt, nsh in _task_variants(s[1], ctx, allow_shared):
             yield ("c", nt), nsh
+        if "leaf:cw" in menu:
+            yield ("cw", s[1]), None
+    elif op == "cw":
+        for nt, nsh in _task_variants(s[1], ctx, allow_shared):
+            yield ("cw", nt), nsh
 
 
 def deviated(base, menu, k):
